@@ -179,3 +179,46 @@ pub fn short_result(r: &OpResult) -> String {
         OpResult::Skipped(s) => format!("skipped:{s}"),
     }
 }
+
+/// The message an assertion signs: authenticator data || client data hash.
+pub fn signed_message(kind: &OpKind, o: &OpRecord) -> Option<(Vec<u8>, Vec<u8>)> {
+    match (kind, &o.result) {
+        (OpKind::Authenticate(spec), OpResult::Auth(Ok(r))) => {
+            let tail = match &spec.cdata {
+                crate::scenario::CData::Hash(h) => h.clone(),
+                _ => crate::model::sha256(&r.client_data_json).to_vec(),
+            };
+            let mut m = r.auth_data.clone();
+            m.extend_from_slice(&tail);
+            Some((m, r.signature.clone()))
+        }
+        (OpKind::GetAssertion(spec), OpResult::Ga(Ok(r))) => {
+            let mut m = r.auth_data.clone();
+            m.extend_from_slice(&spec.cdh);
+            Some((m, r.signature.clone()))
+        }
+        _ => None,
+    }
+}
+
+/// The stored credential that actually signed a successful assertion, identified by verifying
+/// the signature under each candidate's public key (the id a response *reports* is a separate
+/// matter and belongs to C03).
+pub fn signer_of<'a>(kind: &OpKind, o: &OpRecord, candidates: impl Iterator<Item = &'a CredSnap>) -> Option<&'a CredSnap> {
+    let (msg, sig) = signed_message(kind, o)?;
+    let mut seen: Vec<&Vec<u8>> = Vec::new();
+    for c in candidates {
+        if seen.contains(&&c.id) {
+            continue;
+        }
+        seen.push(&c.id);
+        let Some(p) = c.key_parts() else { continue };
+        let (Some(x), Some(y)) = (&p.x, &p.y) else { continue };
+        if let Some(vk) = verifying_key_from_xy(x, y) {
+            if crate::rp::verify_signature(&vk, &msg, &sig) {
+                return Some(c);
+            }
+        }
+    }
+    None
+}
